@@ -25,6 +25,7 @@ func main() {
 		fs.BoolVar(&o.Verbose, "v", false, "verbose")
 		fs.StringVar(&o.Only, "only", "", "only this function")
 		fs.StringVar(&o.KeepSMT, "keep", "", "keep SMT files in dir")
+		fs.IntVar(&o.TimeoutS, "timeout", 0, "per-obligation timeout (s)")
 		fs.Parse(os.Args[2:])
 		if s := os.Getenv("VERIF_SEED"); s != "" {
 			o.Seed, _ = strconv.Atoi(s)
